@@ -8,12 +8,13 @@ from harness.common import Ck, coq_Z_list, coq_list
 from translate import c08_sites
 
 MANIFEST = dict(
-    technique='Rocq proof (allocator freshness/termination, lifecycle NoDup invariant by induction over histories) + ast site census + vm_compute correspondence',
-    text='Theorems in Props/C08.v: the IDMan scan terminates and returns a positive unused ID keeping the search_pos invariant; for every history of create/remove/re-add/gc the IDs of existing objects are pairwise distinct and positive provided IDs are released only by destructors; fixup indexes stay distinct and positive. The premises (release sites, ID stores, fixup acceptance test) are regenerated from vmf.py/instancing.py on every run and kernel-checked; IDMan, EntityFixup and the entity lifecycle are compared with the model on random operation sequences; histories over all six ID kinds are searched on real VMF objects.',
-    note='Trusted: Coq kernel + vm_compute, translate/c08_sites.py, hand models SM/IdMan.v and SM/IdLife.v (tied by differential runs), CPython gc/refcount for __del__ timing. Nav-node IDs (nodeid keyvalue) are searched, not modelled; their known duplicate defect is in known_findings.json. Maps opened with preserve_ids=True are exempt by definition.',
+    technique='Rocq proof (allocator refinement to a finite set, lifecycle NoDup invariants by induction over histories of several maps incl. copy/parse/collapse, nav-node ID lifecycle, fixup indexes) + ast site census + vm_compute correspondences',
+    text='Theorems in Props/C08.v: the IDMan scan terminates and returns a positive unused ID keeping the search_pos invariant; from every invariant state IDMan is observationally equal to a plain finite set that hands out the desired ID if positive and free, else the least free positive ID (search_pos is unobservable); for every history over any number of maps of construction with arbitrary desired IDs, copy() within and across maps, removal, re-adding, destruction, VMF.parse of documents with colliding/missing/non-positive IDs and collapse_one, the existing objects of one kind that belong to one map have pairwise distinct positive IDs, provided IDs are released only by destructors and every copy site passes the destination map down; nav-node IDs held by existing entities are distinct and positive after every history of key set/delete/copy/remove/re-add/destroy provided remove_ent does not release them; fixup indexes stay distinct and positive. The premises (release sites, ID stores, map argument of every constructor/copy call inside copy() methods and collapse_one, node-ID shapes, fixup acceptance test / deferral / start index, hint guard) are regenerated from vmf.py/instancing.py on every run and kernel-checked; IDMan, EntityFixup, the entity lifecycle, three-map histories of entities/brushes/faces, node-ID histories and VMF.parse results are compared with the models on random inputs (exact IDs); histories over all ID kinds including collapse_one are searched on real VMF objects.',
+    note='Trusted: Coq kernel + vm_compute, translate/c08_sites.py (which call sites matter: copy() methods of the five ID classes and collapse_one; other functions that build objects from a foreign map are not in the census), hand models SM/IdMan.v, SM/IdLife.v, SM/IdWorld.v, SM/IdNode.v (tied by differential runs), CPython refcount/gc for __del__ timing. The kinds are independent single-kind models (each class uses the manager of its kind: census obligation). Node IDs reserved by Instance.fixup_key are never released (leak, not modelled). Direct writes to Entity._keys / the deprecated Entity.keys dict bypass the node-ID rule. Maps opened with preserve_ids=True are exempt by definition.',
 )
 
-IMPORTS = ['SV.SM.IdMan', 'SV.SM.IdLife', 'SV.Gen.IdSites_gen', 'SV.Props.C08', 'Coq.ZArith.ZArith', 'Coq.Lists.List']
+IMPORTS = ['SV.SM.IdMan', 'SV.SM.IdManSpec', 'SV.SM.IdLife', 'SV.SM.IdWorld', 'SV.SM.IdNode', 'SV.Gen.IdSites_gen', 'SV.Props.C08',
+           'Coq.ZArith.ZArith', 'Coq.Lists.List']
 PRE = '''Import ListNotations. Open Scope Z_scope.
 Fixpoint zl_eqb (a b : list Z) : bool := match a, b with [] , [] => true | x :: a', y :: b' => Z.eqb x y && zl_eqb a' b' | _, _ => false end.
 Fixpoint bad_idx {A} (f : A -> bool) (n : Z) (l : list A) : list Z := match l with [] => [] | x :: r => (if f x then [] else [n]) ++ bad_idx f (n + 1) r end.
@@ -42,14 +43,27 @@ def gen_idman_ops(rng: random.Random, n: int) -> list[tuple]:
     return ops
 
 
-def impl_idman(ops) -> list[int]:
+def impl_idman(ops, existing=(), problems=None) -> list[int]:
+    """Results of the operations on a real IDMan.  `problems` collects direct breaches seen on the way: an ID handed
+    out that is not positive or was in use, and a search hint that skips a free positive ID (the invariant under
+    which the hint is unobservable, SM/IdManSpecProofs.v)."""
     from srctools.vmf import IDMan
-    m = IDMan()
+    m = IDMan(existing)
     out = []
-    for op in ops:
+    for n_op, op in enumerate(ops):
         k = op[0]
+        if problems is not None:
+            hint = getattr(m, 'search_pos', 1)
+            if hint < 1 or any(j not in m for j in range(1, min(hint, 64))):
+                problems.append(('idman-hint-skips-free-id', n_op, hint))
         if k == 'Get':
-            out.append(m.get_id(op[1]))
+            before = set(m)
+            r = m.get_id(op[1])
+            out.append(r)
+            if problems is not None and r <= 0:
+                problems.append(('idman-nonpositive-id', n_op, r))
+            if problems is not None and r in before:
+                problems.append(('idman-id-in-use', n_op, r))
         elif k == 'Discard':
             m.discard(op[1]); out.append(-2)
         elif k == 'Remove':
@@ -63,7 +77,6 @@ def impl_idman(ops) -> list[int]:
             out.append(1 if op[1] in m else 0)
         elif k == 'Len':
             out.append(len(m))
-    out.append(m.search_pos)
     return out
 
 
@@ -74,25 +87,37 @@ def coq_op(op) -> str:
 def corr_idman(ck: Ck) -> None:
     n = ck.budget(600, 6000)
     cases = []
+    reported: dict[str, int] = {}
     corpus = [[('Get', -1), ('Discard', 1), ('Get', -1), ('Discard', 1), ('Get', -1)],
               [('Get', 5), ('Get', 5), ('Discard', 0), ('Get', -1), ('Get', -1)],
               [('Get', 2), ('Get', 1), ('Get', -1), ('Remove', 9), ('Discard', 2), ('Get', 0), ('Len',)]]
     for i in range(n):
         ops = corpus[i] if i < len(corpus) else gen_idman_ops(ck.rng, ck.rng.choice([3, 8, 20, 45]))
-        exp = impl_idman(ops)
-        cases.append((ops, exp))
+        # IDMan(existing): any starting set (also non-positive members); then a sweep of __contains__ over the range
+        existing = [] if i < len(corpus) or ck.rng.random() < 0.5 else [ck.rng.randint(-2, 9) for _ in range(ck.rng.choice([1, 3, 6]))]
+        ops = list(ops) + [('Contains', x) for x in range(-2, 14)] + [('Len',)]
+        problems: list = []
+        exp = impl_idman(ops, existing, problems)
+        cases.append((ops, exp, existing))
+        for key, n_op, val in problems[:1]:
+            if key not in reported or len(ops) < reported[key]:
+                reported[key] = len(ops)
+                ck.violation(key, f'IDMan: {key} (value {val}) at operation {n_op}',
+                             {'existing': existing, 'ops': [coq_op(o) for o in ops[:n_op + 1]], 'results': exp[:n_op + 1],
+                              'how': 'checks.c08.impl_idman(ops, existing)'})
+        ck.hist('idman_existing', len(existing))
         ck.count('idman_sequences')
         ck.hist('idman_len', len(ops) // 10 * 10)
         for op in ops:
             ck.hist('idman_ops', op[0])
         if len(set(exp)) > 3:
             ck.seen(('idman', tuple(ops)))
-    ck.sample({'idman_ops': [coq_op(o) for o in cases[3][0]], 'impl_results_then_search_pos': cases[3][1]})
+    ck.sample({'idman_ops': [coq_op(o) for o in cases[3][0]], 'impl_results': cases[3][1]})
     bad: list[int] = []
     for lo in range(0, len(cases), 500):
         part = cases[lo:lo + 500]
-        lit = coq_list(f'({coq_list(coq_op(o) for o in ops)}, {coq_Z_list(exp)})' for ops, exp in part)
-        vals = ck.coq_eval(IMPORTS, [f'bad_idx (fun c : list op * list Z => zl_eqb (run idman_lower_guard init (fst c)) (snd c)) 0 {lit}'],
+        lit = coq_list(f'(({coq_Z_list(ex)}, {coq_list(coq_op(o) for o in ops)}), {coq_Z_list(exp)})' for ops, exp, ex in part)
+        vals = ck.coq_eval(IMPORTS, [f'bad_idx (fun c : (list Z * list op) * list Z => zl_eqb (run_res idman_lower_guard (init_from (fst (fst c))) (snd (fst c))) (snd c)) 0 {lit}'],
                            name='idman', preamble=PRE)
         if vals is None:
             ck.obligation('correspondence:idman', False, 'model could not be evaluated')
@@ -103,13 +128,13 @@ def corr_idman(ck: Ck) -> None:
     ck.obligation('correspondence:idman', not bad,
                   f'{len(cases)} operation sequences, model (vm_compute) vs srctools.vmf.IDMan: {len(bad)} disagreements')
     if bad:
-        ops, exp = min((cases[i] for i in bad), key=lambda c: len(c[0]))
+        ops, exp, ex = min((cases[i] for i in bad), key=lambda c: len(c[0]))
         ck.tie_broken.append('correspondence IDMan (SM/IdMan.v run vs srctools.vmf.IDMan)')
-        ck.extra['idman_disagreement'] = {'ops': [coq_op(o) for o in ops], 'impl': exp}
+        ck.extra['idman_disagreement'] = {'existing': ex, 'ops': [coq_op(o) for o in ops], 'impl': exp}
 
 
 # ------------------------------------------------------------------------------------------------ fixups
-def corr_fixups(ck: Ck, require_positive: bool) -> None:
+def corr_fixups(ck: Ck, require_positive: bool, defer: bool = True) -> None:
     from srctools.vmf import EntityFixup, FixupValue
     n = ck.budget(300, 3000)
     cases = []
@@ -134,12 +159,12 @@ def corr_fixups(ck: Ck, require_positive: bool) -> None:
             ck.violation(key, 'EntityFixup holds a duplicate or non-positive replaceNN index',
                          {'init': init, 'ops': ops, 'result': got})
     ck.sample({'fixup_init(var,index)': cases[-1][0], 'ops': cases[-1][1], 'impl_result_sorted': cases[-1][2]})
-    rp = 'true' if require_positive else 'false'
+    rp = ('true' if require_positive else 'false') + (' true' if defer else ' false')
     pre = PRE + '''
 Fixpoint ins (p : Z * Z) (l : list (Z * Z)) := match l with [] => [p] | q :: r => if (fst p <? fst q) then p :: l else q :: ins p r end.
 Definition srt (l : list (Z * Z)) := fold_right ins [] l.
-Definition fx_run (rp : bool) (c : list (Z * Z) * list (bool * Z)) : list (Z * Z) :=
-  srt (fold_left (fun (f : fixups) (o : bool * Z) => if fst o then fx_set (snd o) f else fx_del (snd o) f) (snd c) (fx_init rp (fst c))).
+Definition fx_run (rp df : bool) (c : list (Z * Z) * list (bool * Z)) : list (Z * Z) :=
+  srt (fold_left (fun (f : fixups) (o : bool * Z) => if fst o then fx_set (snd o) f else fx_del (snd o) f) (snd c) (fx_init rp df (fst c))).
 Fixpoint pl_eqb (a b : list (Z * Z)) : bool := match a, b with [], [] => true | (x, y) :: a', (u, v) :: b' => Z.eqb x u && Z.eqb y v && pl_eqb a' b' | _, _ => false end.
 '''
     def pairs(l):
@@ -217,6 +242,9 @@ def run_history(hist: list[tuple], record_release=None):
     for _ in range(3):  # pre-populate so that ID ranges of the two maps overlap
         vmf2.add_brush(vmf2.make_prism(Vec(0, 0, 0), Vec(8, 8, 8)).solid)
         vmf2.create_ent('info_target')
+        g2 = EntityGroup(vmf2)
+        vmf2.groups[g2.id] = g2
+        vmf2.vis_tree.append(VisGroup(vmf2, 'own'))
     objs: list = []     # [kind, obj or None, in_map]
     steps = []
     for ev in hist:
@@ -246,10 +274,14 @@ def run_history(hist: list[tuple], record_release=None):
                 elif kind == 'vis':
                     o = VisGroup(vmf, 'v', desired)
                     vmf.vis_tree.append(o)
+                elif kind == 'vischild':    # nested under the most recent visgroup (or top level when there is none)
+                    o = VisGroup(vmf, 'c', desired)
+                    parents = [x[1] for x in objs if x[0] in ('vis', 'vischild')]
+                    (parents[-1].child_groups if parents else vmf.vis_tree).append(o)
                 objs.append([kind, o, True])
             elif op == 'copy':
                 k = ev[1] % len(objs) if objs else None
-                if k is None or objs[k][1] is None or objs[k][0] in ('group', 'vis'):
+                if k is None or objs[k][1] is None or objs[k][0] in ('group', 'vis', 'vischild'):
                     continue
                 kind, src, _ = objs[k]
                 if kind in ('ent', 'brushent', 'node'):
@@ -261,24 +293,40 @@ def run_history(hist: list[tuple], record_release=None):
                 objs.append([kind, o, True])
             elif op == 'xcopy':     # copy into the other map
                 k = ev[1] % len(objs) if objs else None
-                if k is None or objs[k][1] is None or objs[k][0] in ('group', 'vis', 'node'):
+                if k is None or objs[k][1] is None or objs[k][0] in ('vischild', 'node'):
                     continue
                 kind, src, _ = objs[k]
+                if kind == 'group':
+                    o = src.copy(vmf2)
+                    vmf2.groups[id(o)] = o
+                    del o
+                    continue
+                if kind == 'vis':
+                    o = src.copy(vmf2, {})
+                    vmf2.vis_tree.append(o)
+                    del o
+                    continue
                 o = src.copy(vmf_file=vmf2)
                 if kind in ('ent', 'brushent'):
                     vmf2.add_ent(o)
                 else:
                     vmf2.add_brush(o)
                 del o
+            elif op == 'collapse':  # the whole first map is collapsed into the second one as an instance
+                from srctools import instancing
+                from srctools.math import Matrix
+                inst = instancing.Instance('inst', '', Vec(16 * ev[1], 0, 0), Matrix())
+                instancing.collapse_one(vmf2, inst, instancing.InstanceFile(vmf), visgroup=bool(ev[2]))
+                del inst
             elif op == 'remove':
                 k = ev[1] % len(objs) if objs else None
-                if k is None or objs[k][1] is None or not objs[k][2] or objs[k][0] in ('group', 'vis'):
+                if k is None or objs[k][1] is None or not objs[k][2] or objs[k][0] in ('group', 'vis', 'vischild'):
                     continue
                 objs[k][1].remove()
                 objs[k][2] = False
             elif op == 'readd':
                 k = ev[1] % len(objs) if objs else None
-                if k is None or objs[k][1] is None or objs[k][2] or objs[k][0] in ('group', 'vis'):
+                if k is None or objs[k][1] is None or objs[k][2] or objs[k][0] in ('group', 'vis', 'vischild'):
                     continue
                 if objs[k][0] in ('ent', 'brushent', 'node'):
                     vmf.add_ent(objs[k][1])
@@ -318,8 +366,10 @@ def gen_history(rng: random.Random, n: int, kinds) -> list[tuple]:
             h.append(('create', rng.choice(kinds), rng.choice([-1, -1, 0, -4, 1, 2, 2, 3, 5])))
         elif r < 0.46:
             h.append(('copy', rng.randint(0, 9)))
-        elif r < 0.52:
+        elif r < 0.50:
             h.append(('xcopy', rng.randint(0, 9)))
+        elif r < 0.53:
+            h.append(('collapse', rng.randint(0, 3), rng.randint(0, 1)))
         elif r < 0.70:
             h.append(('remove', rng.randint(0, 9)))
         elif r < 0.80:
@@ -341,6 +391,10 @@ CORPUS_HIST = [
     [('create', 'ent', 2), ('create', 'ent', 2), ('copy', 0), ('remove', 1), ('readd', 1), ('create', 'ent', 2)],
     [('create', 'brushent', 4), ('copy', 0), ('remove', 0), ('gc', 0), ('create', 'brushent', 1), ('create', 'solid', 1)],
     [('create', 'brushent', -1), ('xcopy', 0), ('create', 'solid', -1), ('xcopy', 1), ('xcopy', 0)],
+    [('create', 'brushent', 2), ('create', 'solid', 1), ('create', 'vis', 1), ('create', 'node', 1), ('collapse', 0, 1), ('collapse', 1, 0),
+     ('create', 'solid', -1), ('collapse', 2, 1)],
+    [('create', 'vis', 1), ('create', 'vischild', 1), ('create', 'vischild', 2), ('create', 'group', 1), ('xcopy', 0), ('xcopy', 3), ('xcopy', 0),
+     ('collapse', 0, 1)],
 ]
 
 
@@ -392,8 +446,8 @@ def search_lifecycle(ck: Ck) -> None:
         if i < len(CORPUS_HIST):
             hist = CORPUS_HIST[i]
         else:
-            kinds = ck.rng.choice([['ent'], ['solid'], ['ent', 'brushent', 'solid'], ['node', 'ent'], ['group', 'vis', 'ent'],
-                                   ['ent', 'solid', 'brushent', 'node', 'group', 'vis']])
+            kinds = ck.rng.choice([['ent'], ['solid'], ['ent', 'brushent', 'solid'], ['node', 'ent'], ['group', 'vis', 'vischild', 'ent'],
+                                   ['ent', 'solid', 'brushent', 'node', 'group', 'vis', 'vischild']])
             hist = gen_history(ck.rng, ck.rng.choice([4, 8, 16, 30]), kinds)
         ck.count('lifecycle_histories')
         for e in hist:
@@ -499,13 +553,553 @@ Definition lrun' := lrun {rr}.
         ck.extra['lifecycle_disagreement'] = {'events': cases[bad[0]][0], 'impl': cases[bad[0]][1], 'probe': cases[bad[0]][2]}
 
 
+# ------------------------------------------------------------------------------------------------ several maps
+WORLD_PRE = PRE + '''
+Definition wobs (w : wworld) : list Z :=
+  flat_map (fun o => [wid o; if walive o then 1 else 0; if winmap o then 1 else 0; Z.of_nat (whome o)]) (wobjs w).
+Definition wprobe (w : wworld) (m : nat) : Z := match get_id (-1) (man_of w m) with Some (i, _) => i | None => -3 end.
+Definition wfull (k : kind) (es : list wev) : list Z :=
+  let w := wrun (release_on_remove k) (copy_to_dest k) es in wobs w ++ [wprobe w 0%nat; wprobe w 1%nat; wprobe w 2%nat].
+'''
+
+
+class _Tracked:
+    """One ID-bearing object followed by the harness, with the facts the model must reproduce."""
+    __slots__ = ('ref', 'id', 'alive', 'inmap', 'home', 'wr')
+
+    def __init__(self, obj, home):
+        import weakref
+        self.ref = obj
+        self.id = obj.id
+        self.alive = True
+        self.inmap = True
+        self.home = home
+        try:
+            self.wr = weakref.ref(obj)
+        except TypeError:       # Side has __slots__ without __weakref__: its destructor is observed instead
+            self.wr = None
+
+
+def _zs(d: int) -> str:
+    return f'({d})' if d < 0 else str(d)
+
+
+def gen_world_case(rng: random.Random, n_ev: int):
+    """A random history over three real maps with point entities, brush entities and world brushes.
+
+    Returns ({kind: [event strings]}, {kind: expected observation list}, description, per-map ID scans).  Every
+    nested object gets its own events in the stream of its kind, in the order the implementation constructs them."""
+    from srctools.vmf import VMF, Entity, Solid, Side
+    from srctools.math import Vec
+    maps = [VMF(), VMF(), VMF()]
+    ev: dict[str, list[str]] = {'KEnt': [], 'KSolid': [], 'KFace': []}
+    tr: dict[str, list[_Tracked]] = {'KEnt': [], 'KSolid': [], 'KFace': []}
+    face_dels: list[int] = []             # face IDs released by Side.__del__ (in whichever map)
+    for m, v in enumerate(maps):          # the constructor's worldspawn takes an entity ID in every map
+        ev['KEnt'].append(f'WCreate {m}%nat (-1)')
+        tr['KEnt'].append(_Tracked(v.spawn, m))
+
+        def spy(e, orig=v.face_id.discard):
+            import sys
+            if sys._getframe(1).f_code.co_name == '__del__':
+                face_dels.append(e)
+            return orig(e)
+        v.face_id.discard = spy
+    # top-level objects: kind, obj, ent index or None, [(solid index, [face indexes])], home, inmap
+    tops: list[dict] = []
+    desc: list[tuple] = []
+
+    def new_solid(m, d, fds):
+        sides = []
+        fidx = []
+        for fd in fds:
+            sd = Side(maps[m], [Vec(0, 0, 0), Vec(1, 0, 0), Vec(0, 1, 0)], des_id=fd)
+            ev['KFace'].append(f'WCreate {m}%nat {_zs(fd)}')
+            tr['KFace'].append(_Tracked(sd, m))
+            fidx.append(len(tr['KFace']) - 1)
+            sides.append(sd)
+        so = Solid(maps[m], id=d, sides=sides)
+        ev['KSolid'].append(f'WCreate {m}%nat {_zs(d)}')
+        tr['KSolid'].append(_Tracked(so, m))
+        return so, (len(tr['KSolid']) - 1, fidx)
+
+    def track_copy(kind, src_idx, obj, dest, d):
+        ev[kind].append(f'WCopy {src_idx}%nat {dest}%nat {_zs(d)}')
+        tr[kind].append(_Tracked(obj, dest))
+        return len(tr[kind]) - 1
+
+    def streams(t):
+        return (('KEnt', [t['ent']] if t['ent'] is not None else []), ('KSolid', [s for s, _ in t['solids']]),
+                ('KFace', [f for _, fs in t['solids'] for f in fs]))
+
+    for _ in range(n_ev):
+        r = rng.random()
+        live = [t for t in tops if t['obj'] is not None]
+        if r < 0.30 or not live:
+            m = rng.randrange(3)
+            d = rng.choice([-1, -1, 0, -3, 1, 2, 2, 3, 5])
+            what = rng.choice(['ent', 'ent', 'solid', 'brushent'])
+            if what == 'ent':
+                o = Entity(maps[m], {'classname': 'info_target'}, ent_id=d)
+                ev['KEnt'].append(f'WCreate {m}%nat {_zs(d)}')
+                tr['KEnt'].append(_Tracked(o, m))
+                maps[m].add_ent(o)
+                tops.append({'kind': 'ent', 'obj': o, 'ent': len(tr['KEnt']) - 1, 'solids': [], 'home': m, 'inmap': True})
+            elif what == 'solid':
+                fds = [rng.choice([-1, 0, 1, 2, 4, d]) for _ in range(2)]
+                o, si = new_solid(m, d, fds)
+                maps[m].add_brush(o)
+                tops.append({'kind': 'solid', 'obj': o, 'ent': None, 'solids': [si], 'home': m, 'inmap': True})
+            else:
+                so, si = new_solid(m, rng.choice([-1, 1, 2]), [-1, rng.choice([-1, 1, 3])])
+                o = Entity(maps[m], {'classname': 'func_detail'}, ent_id=d, solids=[so])
+                ev['KEnt'].append(f'WCreate {m}%nat {_zs(d)}')
+                tr['KEnt'].append(_Tracked(o, m))
+                maps[m].add_ent(o)
+                tops.append({'kind': 'ent', 'obj': o, 'ent': len(tr['KEnt']) - 1, 'solids': [si], 'home': m, 'inmap': True})
+                so = None
+            o = None
+            desc.append(('create', what, m, d))
+        elif r < 0.50:
+            t = rng.choice(live)
+            dest = rng.randrange(3)
+            d = rng.choice([-1, -1, 2, 4])
+            explicit = dest != t['home'] or rng.random() < 0.5
+            if not explicit:
+                dest = t['home']
+            c = t['obj'].copy(des_id=d, vmf_file=maps[dest] if explicit else None)
+            nt = {'kind': t['kind'], 'obj': c, 'ent': None, 'solids': [], 'home': dest, 'inmap': True}
+            csolids = c.solids if t['kind'] == 'ent' else [c]
+            # construction order: for every solid its sides, then the solid; the entity last
+            for (si, fis), cs in zip(t['solids'], csolids):
+                nf = []
+                for fi, cf in zip(fis, cs.sides):
+                    # Side.copy asks for the source's own ID when a map is passed, otherwise for a fresh one
+                    nf.append(track_copy('KFace', fi, cf, dest, tr['KFace'][fi].id if explicit else -1))
+                nt['solids'].append((track_copy('KSolid', si, cs, dest, d if t['kind'] == 'solid' else -1), nf))
+            if t['kind'] == 'ent':
+                nt['ent'] = track_copy('KEnt', t['ent'], c, dest, d)
+                maps[dest].add_ent(c)
+            else:
+                maps[dest].add_brush(c)
+            tops.append(nt)
+            desc.append(('copy', tops.index(t), dest, d, explicit))
+            c = csolids = cs = cf = None
+        elif r < 0.68:
+            t = rng.choice(live)
+            if not t['inmap']:
+                continue
+            t['obj'].remove()
+            t['inmap'] = False
+            for kind, idxs in streams(t):
+                for i in idxs:
+                    ev[kind].append(f'WRemove {i}%nat')
+                    tr[kind][i].inmap = False
+            desc.append(('remove', tops.index(t)))
+        elif r < 0.80:
+            t = rng.choice(live)
+            if t['inmap']:
+                continue
+            if t['kind'] == 'ent':
+                maps[t['home']].add_ent(t['obj'])
+            else:
+                maps[t['home']].add_brush(t['obj'])
+            t['inmap'] = True
+            for kind, idxs in streams(t):
+                for i in idxs:
+                    ev[kind].append(f'WReAdd {i}%nat')
+                    tr[kind][i].inmap = True
+            desc.append(('readd', tops.index(t)))
+        else:
+            t = rng.choice(live)
+            if t['inmap']:
+                continue
+            del face_dels[:]
+            t['obj'] = None
+            for kind, idxs in streams(t):
+                for i in idxs:
+                    tr[kind][i].ref = None
+            gc.collect(0)
+            for kind, idxs in streams(t):
+                for i in idxs:
+                    if tr[kind][i].wr is None and tr[kind][i].id in face_dels:
+                        face_dels.remove(tr[kind][i].id)
+                        dead = True
+                    else:
+                        dead = tr[kind][i].wr is not None and tr[kind][i].wr() is None
+                    if dead:
+                        ev[kind].append(f'WDestroy {i}%nat')
+                        tr[kind][i].alive = False
+                        tr[kind][i].inmap = False
+                    else:
+                        desc.append(('still-referenced', kind, i))
+            desc.append(('destroy', tops.index(t)))
+        t = None
+    exp = {}
+    scans = [scan_map(v) for v in maps]
+    for kind, attr in (('KEnt', 'ent_id'), ('KSolid', 'solid_id'), ('KFace', 'face_id')):
+        l = []
+        for x in tr[kind]:
+            l += [x.id, int(x.alive), int(x.inmap), x.home]
+        l += [getattr(v, attr).get_id(-1) for v in maps]
+        exp[kind] = l
+    for v in maps:
+        del v.face_id.discard
+    return ev, exp, desc, scans
+
+
+def corr_world(ck: Ck) -> None:
+    """SM/IdWorld.v against real histories over three maps (entities, brushes, faces; copy within and across maps)."""
+    from harness.common import parse_coq_N_list
+    n = ck.budget(120, 1500)
+    cases = []
+    for i in range(n):
+        ev, exp, desc, scans = gen_world_case(ck.rng, ck.rng.choice([4, 8, 14, 22]))
+        ck.count('world_histories')
+        for d in desc:
+            ck.hist('world_events', d[0])
+        if any(d[0] == 'copy' and d[4] for d in desc):
+            ck.seen(('world', tuple(desc)))
+        for m, sc in enumerate(scans):
+            for kind, what, vals in dup_report(sc):
+                if kind == 'ent':       # scan_map leaves the worldspawn out on purpose; here only listed entities count
+                    pass
+                ck.violation(f'xmap-{kind}-id-{what}', f'map {m}: {kind} IDs {what}: {vals} after a history over three maps',
+                             {'world_history': desc, 'events_per_kind': ev,
+                              'how': 'events are in the notation of SM/IdWorld.v; replay by the same calls on three VMF() objects'})
+        for kind in ('KEnt', 'KSolid', 'KFace'):
+            cases.append((kind, ev[kind], exp[kind], desc))
+    ck.sample({'world_history': cases[-3][3], 'events_per_kind': {c[0]: c[1] for c in cases[-3:]},
+               'impl(id,alive,inmap,home)*_then_next_ids': {c[0]: c[2] for c in cases[-3:]}})
+    bad = []
+    for lo in range(0, len(cases), 300):
+        part = cases[lo:lo + 300]
+        lit = coq_list(f'(({k}, {coq_list(evs)}), {coq_Z_list(exp)})' for k, evs, exp, _ in part)
+        vals = ck.coq_eval(IMPORTS, [f'bad_idx (fun c : (kind * list wev) * list Z => zl_eqb (wfull (fst (fst c)) (snd (fst c))) (snd c)) 0 {lit}'],
+                           name='world', preamble=WORLD_PRE)
+        if vals is None:
+            ck.obligation('correspondence:world', False, 'model could not be evaluated')
+            ck.tie_broken.append('correspondence multi-map lifecycle: model evaluation failed')
+            return
+        bad += [lo + i for i in parse_coq_N_list(vals[0])]
+    ck.obligation('correspondence:world', not bad,
+                  f'{len(cases)} per-kind event streams of {n} histories over three maps, model wrun vs real VMF/Entity/Solid/Side/gc: {len(bad)} disagreements')
+    if bad:
+        c = min((cases[i] for i in bad), key=lambda c: len(c[1]))
+        ck.tie_broken.append('correspondence multi-map lifecycle (SM/IdWorld.v wrun vs copy()/add/remove/__del__ over three maps)')
+        ck.extra['world_disagreement'] = {'kind': c[0], 'events': c[1], 'impl': c[2], 'history': c[3]}
+
+
+# ------------------------------------------------------------------------------------------------ nav-node IDs
+NODE_PRE = PRE + '''
+Definition nobs (w : nworld) : list Z :=
+  flat_map (fun o => [match nid o with Some n => n | None => -9 end; if nalive o then 1 else 0; if ninmap o then 1 else 0]) (nents w).
+Definition nfull (es : list nev) : list Z :=
+  let w := nrun node_realloc_on_add node_release_on_remove node_release_in_del es in
+  nobs w ++ [match get_id (-1) (nman w) with Some (i, _) => i | None => -3 end].
+'''
+
+
+def _node_of(ent):
+    if 'nodeid' in ent and _isint(ent['nodeid']):
+        return int(ent['nodeid'])
+    return None
+
+
+def gen_node_case(rng: random.Random, n_ev: int):
+    """A random history of the 'nodeid' keyvalue on real entities of one map -> (events, expected observations, scan)."""
+    import weakref
+    from srctools.vmf import VMF
+    vmf = VMF()
+    ents: list[list] = []      # [obj, weakref, nid, alive, inmap]
+    evs: list[str] = []
+
+    def opt(d):
+        return 'None' if d is None else f'(Some {_zs(d)})'
+
+    def value():
+        r = rng.random()
+        if r < 0.12:
+            return None, rng.choice(['abc', '', '3.5'])
+        d = rng.choice([-1, 0, -4, 1, 2, 2, 3, 3, 5, 9])
+        return d, rng.choice([str(d), d])
+
+    for _ in range(n_ev):
+        r = rng.random()
+        live = [i for i, e in enumerate(ents) if e[0] is not None]
+        if r < 0.30 or not live:
+            if rng.random() < 0.15:
+                e = vmf.create_ent('info_target')
+                d = None
+            else:
+                d, val = value()
+                e = vmf.create_ent('info_node', **{rng.choice(['nodeid', 'NodeID']): val})
+            ents.append([e, weakref.ref(e), None, True, True])
+            evs.append(f'NCreate {opt(d)}')
+            e = None
+        else:
+            k = rng.choice(live)
+            o = ents[k]
+            if r < 0.45:
+                d, val = value()
+                o[0][rng.choice(['nodeid', 'NODEID'])] = val
+                evs.append(f'NSet {k}%nat {opt(d)}')
+            elif r < 0.55:
+                how = rng.randrange(3)
+                if how == 0:
+                    del o[0]['nodeid']
+                elif how == 1:
+                    o[0].pop('NodeId')
+                else:
+                    o[0].clear()
+                evs.append(f'NDel {k}%nat')
+            elif r < 0.68:
+                if not o[4]:
+                    continue
+                o[0].remove()
+                o[4] = False
+                evs.append(f'NRemove {k}%nat')
+            elif r < 0.78:
+                if o[4]:
+                    continue
+                vmf.add_ent(o[0])
+                o[4] = True
+                evs.append(f'NReAdd {k}%nat')
+            elif r < 0.90:
+                if o[4]:
+                    continue
+                o[2] = _node_of(o[0])
+                o[0] = None
+                gc.collect(0)
+                if o[1]() is None:
+                    o[3] = False
+                    evs.append(f'NGc {k}%nat')
+            else:
+                c = o[0].copy()
+                vmf.add_ent(c)
+                ents.append([c, weakref.ref(c), None, True, True])
+                evs.append(f'NCopy {k}%nat')
+                c = None
+            o = None
+    exp = []
+    for e in ents:
+        n = _node_of(e[0]) if e[0] is not None else e[2]
+        exp += [-9 if n is None else n, int(e[3]), int(e[4])]
+    held = [n for n in (_node_of(e[0]) for e in ents if e[0] is not None) if n is not None]
+    exp.append(vmf.node_id.get_id(-1))
+    return evs, exp, held, scan_map(vmf)
+
+
+def corr_node(ck: Ck) -> None:
+    """SM/IdNode.v against real histories of the 'nodeid' keyvalue (set/delete/pop/clear/copy/remove/re-add/gc)."""
+    from harness.common import parse_coq_N_list
+    n = ck.budget(250, 3000)
+    cases = []
+    for i in range(n):
+        evs, exp, held, sc = gen_node_case(ck.rng, ck.rng.choice([3, 6, 12, 24]))
+        cases.append((evs, exp))
+        ck.count('node_histories')
+        for e in evs:
+            ck.hist('node_events', e.split()[0])
+        if sum(e.startswith(('NSet', 'NDel', 'NRemove')) for e in evs) >= 2:
+            ck.seen(('node', tuple(evs)))
+        # the stronger oracle of the repaired rule: no two *existing* entities hold the same node ID
+        if len(set(held)) != len(held) or any(x <= 0 for x in held):
+            ck.violation('node-id-duplicate' if len(set(held)) != len(held) else 'node-id-nonpositive',
+                         f'existing entities hold node IDs {sorted(held)}', {'node_events': evs, 'impl': exp,
+                         'how': 'events in the notation of SM/IdNode.v: NCreate = create_ent(nodeid=..), NSet = ent[nodeid]=.., NDel = del/pop/clear, NRemove/NReAdd/NGc/NCopy'})
+    ck.sample({'node_events': cases[-1][0], 'impl(nid|-9,alive,inmap)*_then_next_id': cases[-1][1]})
+    bad = []
+    for lo in range(0, len(cases), 400):
+        part = cases[lo:lo + 400]
+        lit = coq_list(f'({coq_list(evs)}, {coq_Z_list(exp)})' for evs, exp in part)
+        vals = ck.coq_eval(IMPORTS, [f'bad_idx (fun c : list nev * list Z => zl_eqb (nfull (fst c)) (snd c)) 0 {lit}'],
+                           name='node', preamble=NODE_PRE)
+        if vals is None:
+            ck.obligation('correspondence:node', False, 'model could not be evaluated')
+            ck.tie_broken.append('correspondence nav-node IDs: model evaluation failed')
+            return
+        bad += [lo + i for i in parse_coq_N_list(vals[0])]
+    ck.obligation('correspondence:node', not bad,
+                  f"{len(cases)} histories of the 'nodeid' keyvalue, model nrun vs real Entity/VMF: {len(bad)} disagreements")
+    if bad:
+        c = min((cases[i] for i in bad), key=lambda c: len(c[0]))
+        ck.tie_broken.append("correspondence nav-node IDs (SM/IdNode.v nrun vs Entity.__setitem__/__delitem__/clear/__del__, VMF.add_ent/remove_ent)")
+        ck.extra['node_disagreement'] = {'events': c[0], 'impl': c[1]}
+
+
+# ------------------------------------------------------------------------------------------------ VMF.parse
+PARSE_PRE = PRE + '''
+Definition wids (k : kind) (es : list wev) : list Z := live_ids_in 0%nat (wrun (release_on_remove k) (copy_to_dest k) es).
+Definition nlive (es : list nev) : list Z := nids (nents (nrun node_realloc_on_add node_release_on_remove node_release_in_del es)).
+'''
+_ID_POOL = [None, None, -1, 0, -2, 1, 1, 2, 2, 3, 4, 7]
+
+
+def gen_vmf_doc(rng: random.Random):
+    """VMF text whose IDs collide, are missing, zero or negative, plus the desired IDs per kind in construction order."""
+    want = {'KEnt': [], 'KSolid': [], 'KFace': [], 'KGroup': [], 'KVis': [], 'node': []}
+    out: list[str] = ['versioninfo\n{\n"formatversion" "100"\n}\n']
+
+    def pick():
+        return rng.choice(_ID_POOL)
+
+    def idline(key, d):
+        return '' if d is None else f'"{key}" "{d}"\n'
+
+    def des(d):
+        return -1 if d is None else d
+
+    def solid():
+        txt = 'solid\n{\n'
+        sd = pick()
+        txt += idline('id', sd)
+        for _ in range(rng.choice([1, 2, 3])):
+            fd = pick()
+            txt += 'side\n{\n' + idline('id', fd) + '"plane" "(0 0 0) (1 0 0) (0 1 0)"\n"material" "A"\n}\n'
+            want['KFace'].append(des(fd))
+        want['KSolid'].append(des(sd))
+        return txt + '}\n'
+
+    def visgroup(depth):
+        vd = pick()
+        txt = 'visgroup\n{\n"name" "v"\n' + idline('visgroupid', vd)
+        for _ in range(rng.choice([0, 0, 1, 2]) if depth < 2 else 0):
+            txt += visgroup(depth + 1)
+        want['KVis'].append(des(vd))        # children are constructed first
+        return txt + '}\n'
+
+    out.append('visgroups\n{\n' + ''.join(visgroup(0) for _ in range(rng.choice([0, 1, 3]))) + '}\n')
+    wd = pick()
+    world = 'world\n{\n' + idline('id', wd) + '"classname" "worldspawn"\n'
+    for _ in range(rng.choice([0, 1, 3])):
+        if rng.random() < 0.25:
+            world += 'hidden\n{\n' + solid() + '}\n'
+        else:
+            world += solid()
+    for _ in range(rng.choice([0, 1, 3])):
+        gd = pick()
+        world += 'group\n{\n' + idline('id', gd) + 'editor\n{\n"color" "1 2 3"\n}\n}\n'
+        want['KGroup'].append(des(gd))
+    out.append(world + '}\n')
+    ents = []
+    for _ in range(rng.choice([0, 2, 4, 7])):
+        ed = pick()
+        # Entity.parse reads the id only when it is numeric: '-1'/'-2' stay ordinary keyvalues
+        txt = 'entity\n{\n' + idline('id', ed)
+        node = None
+        if rng.random() < 0.5:
+            nd = rng.choice([-1, 0, 1, 1, 2, 3, 3, 5])
+            txt += '"classname" "info_node"\n' + f'"nodeid" "{nd}"\n'
+            node = nd
+        else:
+            txt += '"classname" "func_detail"\n'
+            for _ in range(rng.choice([0, 1, 2])):
+                txt += solid()
+        txt += '}\n'
+        want['KEnt'].append(ed if ed is not None and ed >= 0 else -1)
+        want['node'].append(node)
+        ents.append('hidden\n{\n' + txt + '}\n' if rng.random() < 0.2 else txt)
+    out += ents
+    return ''.join(out), want, (wd if wd is not None and wd >= 0 else -1)
+
+
+def corr_parse(ck: Ck) -> None:
+    """VMF.parse of documents with colliding / missing / non-positive IDs against the model's WParse, per kind."""
+    from harness.common import parse_coq_N_list
+    from srctools.vmf import VMF
+    from srctools.keyvalues import Keyvalues
+    n = ck.budget(150, 2000)
+    cases = []
+    for i in range(n):
+        text, want, wd = gen_vmf_doc(ck.rng)
+        try:
+            vmf = VMF.parse(Keyvalues.parse(text))
+        except Exception as e:
+            ck.violation('parse-exception', f'VMF.parse raised {type(e).__name__}: {e}', {'vmf_text': text})
+            continue
+        ck.count('parsed_documents')
+        sc = scan_map(vmf)
+        for kind, what, vals in dup_report(sc):
+            ck.violation(f'parse-{kind}-id-{what}', f'after VMF.parse: {kind} IDs {what}: {vals}', {'vmf_text': text})
+        solids = list(vmf.brushes) + [s for e in vmf.entities for s in e.solids]
+        got = {
+            'KEnt': [vmf.spawn.id] + [e.id for e in vmf.entities],
+            'KSolid': [s.id for s in solids],
+            'KFace': [f.id for s in solids for f in s.sides],
+            'KGroup': [g.id for g in vmf.groups.values()],
+            'KVis': [v.id for v in _post_vis(vmf.vis_tree)],
+        }
+        if any(k != g.id for k, g in vmf.groups.items()):
+            ck.violation('parse-group-key-mismatch', 'VMF.groups key differs from the group ID', {'vmf_text': text})
+        if sum(len(set(v)) > 1 for v in want.values() if v) >= 2:
+            ck.seen(('parse', text))
+        for k, ds in want.items():
+            ck.hist('parse_desired', 'missing' if not ds else 'some')
+        # the placeholder worldspawn of VMF() takes ID 1 and dies when the parsed one replaces it
+        evs = {
+            'KEnt': ['WCreate 0%nat (-1)', f'WParse 0%nat [{_zs(wd)}]', 'WDestroy 0%nat',
+                     f'WParse 0%nat {coq_Z_list(want["KEnt"])}'],
+        }
+        for k in ('KSolid', 'KFace', 'KGroup', 'KVis'):
+            evs[k] = [f'WParse 0%nat {coq_Z_list(want[k])}']
+        for k in evs:
+            cases.append((k, evs[k], got[k], text))
+        nodes = [int(e['nodeid']) for e in vmf.entities if 'nodeid' in e]
+        nev = ['NCreate ' + ('None' if d is None else f'(Some {_zs(d)})') for d in want['node']]
+        cases.append(('node', nev, nodes, text))
+    ck.sample({'parsed_vmf_text': cases[-1][3][:600], 'desired_and_resulting_ids': {c[0]: (c[1], c[2]) for c in cases[-6:]}})
+    bad = []
+    wcases = [c for c in cases if c[0] != 'node']
+    ncases = [c for c in cases if c[0] == 'node']
+    for lo in range(0, len(wcases), 400):
+        part = wcases[lo:lo + 400]
+        lit = coq_list(f'(({k}, {coq_list(evs)}), {coq_Z_list(got)})' for k, evs, got, _ in part)
+        vals = ck.coq_eval(IMPORTS, [f'bad_idx (fun c : (kind * list wev) * list Z => zl_eqb (wids (fst (fst c)) (snd (fst c))) (snd c)) 0 {lit}'],
+                           name='parse', preamble=PARSE_PRE)
+        if vals is None:
+            ck.obligation('correspondence:parse', False, 'model could not be evaluated')
+            ck.tie_broken.append('correspondence VMF.parse: model evaluation failed')
+            return
+        bad += [wcases[lo + i] for i in parse_coq_N_list(vals[0])]
+    for lo in range(0, len(ncases), 400):
+        part = ncases[lo:lo + 400]
+        lit = coq_list(f'({coq_list(evs)}, {coq_Z_list(got)})' for _, evs, got, _ in part)
+        vals = ck.coq_eval(IMPORTS, [f'bad_idx (fun c : list nev * list Z => zl_eqb (nlive (fst c)) (snd c)) 0 {lit}'],
+                           name='parsenode', preamble=PARSE_PRE)
+        if vals is None:
+            ck.obligation('correspondence:parse', False, 'model could not be evaluated')
+            ck.tie_broken.append('correspondence VMF.parse: model evaluation failed')
+            return
+        bad += [ncases[lo + i] for i in parse_coq_N_list(vals[0])]
+    ck.obligation('correspondence:parse', not bad,
+                  f'{len(cases)} per-kind ID lists of {n} parsed documents (entities, brushes, faces, groups, visgroups, node IDs), '
+                  f'model WParse/NCreate vs VMF.parse: {len(bad)} disagreements')
+    if bad:
+        c = min(bad, key=lambda c: len(c[3]))
+        ck.tie_broken.append('correspondence VMF.parse (SM/IdWorld.v WParse, SM/IdNode.v NCreate vs VMF.parse)')
+        ck.extra['parse_disagreement'] = {'kind': c[0], 'events': c[1], 'impl_ids': c[2], 'vmf_text': c[3]}
+
+
+def _post_vis(lst):
+    for v in lst:
+        yield from _post_vis(v.child_groups)
+        yield v
+
+
 # ------------------------------------------------------------------------------------------------ main
 def run(ck: Ck) -> None:
-    ck.rule = ('IDMan: random operation sequences over a small ID range (collisions frequent), non-trivial = more than 3 '
-               'distinct results; lifecycle: random histories of create/copy/remove/re-add/gc/node edits over 6 object kinds, '
-               'non-trivial = contains create and remove; fixups: random init lists with colliding/non-positive indexes '
-               'followed by set/del, non-trivial = at least two variables left; distinct by full sequence')
-    ck.trusted.append('hand-written models SM/IdMan.v, SM/IdLife.v (tied by differential correspondence on every run)')
+    ck.rule = ('IDMan: random operation sequences over a small ID range (collisions frequent) from IDMan(existing), non-trivial = '
+               'more than 3 distinct results; lifecycle: random histories of create/copy/cross-map copy/collapse_one/remove/re-add/gc/'
+               'node edits over 7 object kinds, non-trivial = contains create and remove; world: histories over three maps of point '
+               'entities, brush entities and world brushes (nested solids and faces get their own event streams), non-trivial = '
+               'contains an explicit cross-map or same-map copy(vmf_file=...); node: histories of the nodeid keyvalue, non-trivial = '
+               'at least two of set/delete/remove; parse: generated VMF documents whose ids are drawn from a small pool with '
+               'missing/0/negative/colliding values, non-trivial = at least two kinds with different desired ids; fixups: random '
+               'init lists with colliding/non-positive indexes followed by set/del, non-trivial = at least two variables left; '
+               'distinct by full sequence / text')
+    ck.trusted.append('hand-written models SM/IdMan.v, SM/IdLife.v, SM/IdWorld.v, SM/IdNode.v (tied by differential correspondence on every run)')
+    ck.assumptions.append('objects are added to the map they were constructed for (VMF.add_ent docstring); Entity._keys is only written through the mapping API')
     ok_t = ck.translate('IdSites_gen', c08_sites.translate)
     side = ck.extra.get('translated', {}).get('IdSites_gen', {})
     built = ok_t and ck.build(['Props/C08.vo'])
@@ -520,26 +1114,57 @@ def run(ck: Ck) -> None:
             'every_id_store_is_a_get_id_result': 'all_id_stores_from_get_id',
             'fixup_constructor_tests_positivity': 'fixup_init_requires_positive',
             'fixup_set_searches_from_1': 'Z.eqb fixup_set_start 1',
+            'fixup_constructor_reinserts_refused_values_after_the_first_pass': 'fixup_init_defers_reinsertion',
             'idman_hint_lowered_only_by_positive_ids': 'idman_lower_guard',
             'each_class_uses_the_manager_of_its_kind': 'class_kind_consistent',
+            'entity_copies_allocate_in_destination_map': 'copy_to_dest KEnt',
+            'solid_copies_allocate_in_destination_map': 'copy_to_dest KSolid',
+            'face_copies_allocate_in_destination_map': 'copy_to_dest KFace',
+            'visgroup_copies_allocate_in_destination_map': 'copy_to_dest KVis',
+            'group_copies_allocate_in_destination_map': 'copy_to_dest KGroup',
+            'node_id_not_released_on_remove': 'negb node_release_on_remove',
             'no_unclassified_release_site': 'forallb (fun x : kind * site * String.string => match snd (fst x) with SOther => false | _ => true end) release_sites',
         })
         corr_idman(ck)
-        corr_fixups(ck, bool(side.get('fixup_init_requires_positive')))
+        corr_fixups(ck, bool(side.get('fixup_init_requires_positive')), bool(side.get('fixup_init_defers', True)))
         ror = any(r[0] == 'KEnt' and r[1] != 'SDel' for r in side.get('releases', []))
         corr_lifecycle(ck, ror)
+        corr_world(ck)
+        corr_node(ck)
+        corr_parse(ck)
     search_lifecycle(ck)
-    # Failed instance obligations are explained when the search exhibits the corresponding concrete history.
+    # Failed obligations are explained when the search exhibits a concrete history of the corresponding class.
     keys = {v['key'] for v in ck.violations}
-    if any(k.startswith('ent-id-duplicate') for k in keys):
+
+    def has(*frags):
+        return any(all(f in k for f in frags) for k in keys)
+    if has('ent-id-duplicate') or has('ent-id-nonpositive'):
         ck.explain('instance:ent_released_only_by_destructor')
-    if any(k.startswith('solid-id-duplicate') for k in keys):
-        ck.explain('instance:solid_released_only_by_destructor')
-    if any(k.startswith('face-id-duplicate') for k in keys):
-        ck.explain('instance:face_released_only_by_destructor')
-    if any(k.startswith('fixup-index') for k in keys):
+        ck.explain('correspondence:lifecycle')
+    for kind, name in (('solid', 'solid'), ('face', 'face'), ('ent', 'entity'), ('vis', 'visgroup'), ('group', 'group')):
+        if has(kind + '-id-duplicate'):
+            ck.explain(f'instance:{kind}_released_only_by_destructor')
+            ck.explain('instance:each_class_uses_the_manager_of_its_kind')
+            ck.explain('correspondence:world')
+        if has('xmap-' + kind + '-id-'):
+            ck.explain(f'instance:{name}_copies_allocate_in_destination_map')
+            ck.explain('correspondence:world')
+    if has('fixup-index'):
         ck.explain('instance:fixup_constructor_tests_positivity')
         ck.explain('instance:fixup_set_searches_from_1')
+        ck.explain('instance:fixup_constructor_reinserts')
+        ck.explain('correspondence:fixup')
+    if has('node-id-'):
+        ck.explain('instance:node_id_not_released_on_remove')
+        ck.explain('correspondence:node')
+    if has('-id-nonpositive'):
+        ck.explain('instance:idman_hint_lowered_only_by_positive_ids')
+        ck.explain('correspondence:idman')
+    if has('idman-'):
+        ck.explain('instance:idman_hint_lowered_only_by_positive_ids')
+        ck.explain('correspondence:idman')
+    if has('parse-'):
+        ck.explain('correspondence:parse')
 
 
 def replay(data: dict) -> int:
